@@ -25,9 +25,9 @@ MANIFEST = {
     "technique": "Rocq/Coq proof over hand-written model + correspondence check (extracted OCaml vs the real CLI binary in fresh processes)"
 }
 
-RULE = ("multi-file projects (1..6 files; shapes multi / cmd1 / onefile / dup / dupev) x modes none, zod x fresh processes "
+RULE = ("multi-file projects (1..6 files; shapes multi / cmd1 / onefile / dup / dupev / dupcmd = command names defined more than once) x modes none, zod x fresh processes "
         "(quick 8, thorough 32 per project and mode, flags cycling through none / --verbose / --visualize-deps / both) "
-        "plus noise variants and reorder / move / split / merge (reverse, movedef for the duplicate classes) variants. "
+        "plus noise variants and reorder / move / split / merge (reverse, movedef for the duplicate classes; adjdup = make two definitions of a repeated command name adjacent / non-adjacent) variants. "
         "One evaluation = one (project, mode, aspect) group of runs; non-trivial = the project has at least two files or at "
         "least two commands; distinct = distinct (project, mode, aspect, variant)")
 TRUSTED = ["tools/props/c13.py content_tables: the struct / fn item behind each body id / command id handed to the text-level model, and the fragment predicate (which blocks are compared as text); cutting files at the keyword export is Gallina (Model/C13Text.v cut_export)",
